@@ -20,7 +20,7 @@ RULE = ("full cross product of the enumerated dimensions (sampled in quick); non
         "acceptance while the application still had data to send; distinct = distinct case hash")
 ASSUMPTIONS = ["HTTP/1 half-close by the client is not a connection close (release demanded on reset / resume only)",
                "other connections are not modelled in the connection tier (sibling streams are)"]
-MIN_DECISIVE = {"bounded": 20, "released": 20, "siblings": 5}
+MIN_DECISIVE = {"bounded": 20, "released": 20, "siblings": 5, "end-needs-no-credit": 8}
 BOUND_BASE = 256 * 1024
 
 
@@ -45,12 +45,53 @@ def gen(rng, tier):
                     for release in rels:
                         for sib in (0, 2):
                             cases.append((kind, size, chunk, point, release, sib))
+    # ---- END_STREAM needs no credit: a send that has nothing left to transmit must not wait for a window ------------
+    for rep in range(2 if tier == "quick" else 12):
+        for variant in ("exact_stream_window", "exact_conn_window", "empty_sibling_conn0", "empty_sibling_stream0_self"):
+            n += 1
+            yield _build_endzero(rng, 900000 + n, variant)
     rng.shuffle(cases)
     if tier == "quick":
         cases = cases[:360]
     for (kind, size, chunk, point, release, sib) in cases:
         n += 1
         yield _build(rng, n, kind, size, chunk, point, release, sib)
+
+
+def _build_endzero(rng, n, variant):
+    tag = n
+    fb = FrameBuilder()
+    rspec = {"kind": "h2", "credit": "none"}
+    by_tag = {}
+    if variant == "exact_stream_window":
+        iw = rng.choice([1, 1000, 16384, 40000])
+        rspec["initial_window"] = iw
+        size = iw
+    elif variant == "exact_conn_window":
+        rspec["initial_window"] = 1 << 20
+        size = 65535
+    else:
+        rspec["initial_window"] = (1 << 24) if variant == "empty_sibling_conn0" else 0
+        size = 300000 if variant == "empty_sibling_conn0" else 5000
+    chunk = rng.choice([size, max(1, size // 3), 1000])
+    by_tag[str(tag)] = [["recv_until_end"], ["send", {"type": "http.response.start", "status": 200, "headers": [(b"x-tag", b"%d" % tag)]}],
+                        ["send_stream", ("c8z", tag), size, chunk, True]]
+    blob = bytearray(client_preface(fb, rspec))
+    blob += fb.headers(1, [(b":method", b"GET"), (b":scheme", b"http"), (b":path", b"/t%d" % tag), (b":authority", b"h")], end_stream=True)
+    sibs = []
+    if variant.startswith("empty_sibling"):
+        stag = tag + 500000
+        sibs.append((stag, 3))
+        by_tag[str(stag)] = [["recv_until_end"], ["wait", "sib"], ["respond", rng.choice([200, 204]), [], b""]]
+        blob += fb.headers(3, [(b":method", b"GET"), (b":scheme", b"http"), (b":path", b"/t%d" % stag), (b":authority", b"h")], end_stream=True)
+    client = [["feed", bytes(blob)], ["settle"], ["mark", "stall"]]
+    if sibs:
+        client += [["trigger", "sib"], ["settle"]]
+    return {"family": "h2.endzero." + variant, "backends": ["asyncio", "trio"], "config": {"keep_alive_timeout": 5000}, "conn": {},
+            "apps": {"default": [["recv_until_end"], ["respond", 200, [], b"d"]], "by_tag": by_tag},
+            "client": client, "reactor": rspec,
+            "truth": {"kind": "h2.endzero", "variant": variant, "size": size, "chunk": chunk, "tag": tag, "sib": sibs, "sid": 1},
+            "sched": {"seed": rng.randrange(1 << 30)}, "horizon": 100.0}
 
 
 def _build(rng, n, kind, size, chunk, point, release, sib):
@@ -181,6 +222,26 @@ def check(case, obs, tally):
         return out
     if "stall" not in obs.marks:
         tally.inconclusive["stall-mark-missing"] += 1
+        return out
+    if t["kind"] == "h2.endzero":
+        tally.clause("end-needs-no-credit")
+        rx = obs.reactor
+        want = {}
+        if t["variant"].startswith("exact"):
+            want[t["sid"]] = t["size"]
+        for stag, ssid in t["sib"]:
+            want[ssid] = 0
+        paths = {e[4]["inst"]: e[4]["scope"].get("path") for e in obs.app_events(kind="start")}
+        for sid_, size_ in want.items():
+            s_ = rx.streams.get(sid_)
+            if s_ is None or len(s_.data) != size_ or s_.ended != 1:
+                out.append({"clause": "end-needs-no-credit", "sig": "C08.end-stream-withheld/%s" % t["variant"],
+                            "detail": "stream %d has nothing left that needs flow-control credit (%d of %d body bytes delivered) but END_STREAM was "
+                                      "not sent while the window is 0: %r" % (sid_, len(s_.data) if s_ else -1, size_, None if s_ is None else (s_.status, s_.ended))})
+        stuck = [e for e in obs.open_sends() if (t["variant"].startswith("exact") or paths.get(e[4]["inst"]) != "/t%d" % t["tag"])]
+        if stuck and not out:
+            out.append({"clause": "end-needs-no-credit", "sig": "C08.not-released/h2/end-without-credit",
+                        "detail": "send(%r) of %s still waiting although nothing of it needs credit" % (stuck[0][4]["msg"].get("type"), paths.get(stuck[0][4]["inst"]))})
         return out
     mk = obs.marks["stall"]
     inst = None
